@@ -15,6 +15,8 @@ Clauses (Fail.clause):
                              looked up through the alias path (dotted, tuple, chained; get_member and []; from every ancestor) gives
                              a wrapper alias whose target is the object currently stored in F.members; other names raise KeyError
   aliases-follow-replacement aliases whose target was the object replaced through set_member now target the replacement
+  untouched-alias-keeps-target  replacing a member re-targets only the aliases that point at the replaced object (reference model:
+                             an alias target changes by its own resolution / assignment or by following a replaced target)
   alias-registered           every resolved alias satisfies target.aliases[alias.path] is alias (for an alias -> alias chain: the
                              registry of the final target, once every link is resolved)
   no-self-target             alias.target = alias / = something at the alias's own path raises CyclicAliasError;
@@ -48,6 +50,7 @@ ASSUMPTIONS = [
     "the key's last part equals the value's name (otherwise obj.path cannot lead back to the object); the collection holds modules only, classes hold no modules, functions/attributes hold nothing",
     "mutation paths go through modules/classes only: setting or deleting *through* an alias or a function is not generated; lookups through alias paths (the read side) are checked after every step",
     "alias registry clause: for an alias whose target is an alias, `target.aliases` is the registry of the chain's final target; it is evaluated when every link is already resolved (links followed by identity, nothing is resolved by the check, rings by path are skipped exactly as Alias.final_target rejects them) and while no later step mutated the tree or re-targeted an alias since the outer alias was attached / re-targeted (Griffe registers an outer alias once, at that moment; see findings/C16.md 5)",
+    "frame condition on alias targets (reference model): after a replacement, a resolved in-tree alias that did not point at the replaced object keeps its target; exempt on the pinned tree: aliases still listed in the replaced object's `aliases` although re-targeted elsewhere (set_member re-targets stale entries too: observed, findings/C16.md)",
     "the reference model mirrors one Griffe-specific behaviour: set_member replacing a module by a module with a different file path merges regular+stubs (.pyi); the discarded stubs module is never re-inserted; an alias value that would trigger that merge is not generated",
     "outcomes of alias.resolve_target() are not predicted (C06's subject); AliasResolutionError/CyclicAliasError are its allowed exceptions",
 ]
